@@ -298,6 +298,11 @@ theorem cstep_cinv {topo : Topo} (wf : TopoWf topo) {s s' : CState} {c : CChoice
       · exact inv.arps g (List.mem_of_mem_eraseIdx hg)
       · exact r2 g hg
 
+/-- a network losing an ARP frame (`dropArp`, the fault schedules of the differential runs) keeps
+    the invariant as well: nothing is learned from a frame that reaches nobody -/
+theorem dropArp_cinv {topo : Topo} {s : CState} (inv : CInv topo s) (a : Nat) : CInv topo (dropArp s a) :=
+  ⟨inv.caches, (fun fr h => inv.arps fr (List.mem_of_mem_eraseIdx h)), inv.tasks⟩
+
 theorem crun_cinv {topo : Topo} (wf : TopoWf topo) : ∀ (cs : List CChoice) (s s' : CState),
     crun topo s cs = .ok s' → CInv topo s → CInv topo s'
   | [], s, s', h, inv => by simp [crun] at h; subst h; exact inv
